@@ -38,6 +38,11 @@ class Reject(Exception):
     pass
 
 
+RUST_KEYWORDS = set("""as async await break const continue crate dyn else enum extern false fn for if impl in let loop match mod move mut
+pub ref return self Self static struct super trait true type unsafe use where while abstract become box do final macro override priv try
+typeof unsized virtual yield""".split())
+
+
 # ---------------------------------------------------------------------------------------------- lexer
 PUNCT2 = ("::", "=>", "->")
 PUNCT1 = "#[](){}<>,:;=&?.-!|*+"
@@ -143,6 +148,12 @@ class P:
             self.rej("expected %s" % (("`%s`" % v) if v else "an identifier"))
         self.i += 1
         return self.t[self.i - 1][1]
+
+    def decl_id(self, what):
+        """a declared name (item, field, variant): a Rust keyword there is not valid Rust"""
+        if self.is_id() and self.peek()[1] in RUST_KEYWORDS:
+            self.rej("%s identifier is a Rust keyword: not valid Rust" % what)
+        return self.eat_id()
 
     def seq(self, spec):
         """match a whitespace-separated token template; `?,` is an optional comma"""
@@ -349,7 +360,7 @@ class P:
             a = self.attrs(where)
             self.vis()
             self.i += 1
-            name = self.eat_id()
+            name = self.decl_id("item")
             if where == "alias":
                 if self.is_p("<"):
                     self.rej("generic type alias")
@@ -366,7 +377,7 @@ class P:
                 while not self.is_p("}"):
                     fa = self.attrs("field")
                     self.vis()
-                    ident = self.eat_id()
+                    ident = self.decl_id("field")
                     self.eat_p(":")
                     ty = self.type_()
                     fields.append({"ident": ident, "rename": fa["serde"].get("rename"), "ty": ty, "gated": fa["gated"]})
@@ -383,7 +394,7 @@ class P:
                 variants = []
                 while not self.is_p("}"):
                     va = self.attrs("variant")
-                    ident = self.eat_id()
+                    ident = self.decl_id("variant")
                     payload = []
                     if self.is_p("("):
                         self.i += 1
